@@ -715,6 +715,14 @@ fn main() {
         let alpha = name_alphabet(false);
         names_harness(ctx, "names", &alpha, ctx.by_tier(4, 5));
         names_harness(ctx, "names_long", &long_name_alphabet(), ctx.by_tier(2, 3));
+        // duplicates at distance > 1 followed by a name that MATCHes / DELTAs against the duplicated
+        // name where the name just before the duplicate differs: all lists of <= 5 names over four
+        // colon-token names differing in one numeric field (a dup target is never the first name)
+        let dup_alpha: Vec<Vec<u8>> = ["x:9", "run7:1102:150:17", "run7:1102:100:17", "run7:1102:150:18"]
+            .iter()
+            .map(|s| s.as_bytes().to_vec())
+            .collect();
+        names_harness(ctx, "names_dup", &dup_alpha, ctx.by_tier(5, 6));
         if !quick {
             names_harness(ctx, "names_ext", &name_alphabet(true), 4);
         }
